@@ -20,6 +20,7 @@ interpretation over the term domain.
 from __future__ import annotations
 
 import ast
+import os
 import copy
 
 from .pm import AnalysisError, norm
@@ -33,6 +34,42 @@ def _size(e):
     return sum(1 for _ in ast.walk(e))
 
 
+def _beta(e):
+    """(lambda a, b: E)(x, y)  ->  E with a, b replaced (no binder inside E may capture a name of x, y)"""
+    class B(ast.NodeTransformer):
+        def visit_Call(s, n):
+            n = s.generic_visit(n)
+            f = n.func
+            if isinstance(f, ast.Lambda) and not n.keywords and not any(isinstance(a, ast.Starred) for a in n.args):
+                a = f.args
+                if not (a.vararg or a.kwarg or a.kwonlyargs or a.defaults or a.kw_defaults) and len(a.posonlyargs + a.args) == len(n.args):
+                    params = [x.arg for x in a.posonlyargs + a.args]
+                    free = {x.id for arg in n.args for x in ast.walk(arg) if isinstance(x, ast.Name)}
+                    binders = set()
+                    for x in ast.walk(f.body):
+                        if isinstance(x, ast.Lambda):
+                            binders |= {y.arg for y in x.args.args + x.args.posonlyargs + x.args.kwonlyargs}
+                        elif isinstance(x, ast.comprehension):
+                            binders |= {y.id for y in ast.walk(x.target) if isinstance(y, ast.Name)}
+                        elif isinstance(x, ast.NamedExpr):
+                            binders.add(x.target.id)
+                    if not (binders & (free | set(params))):
+                        bind = dict(zip(params, n.args))
+
+                        class R(ast.NodeTransformer):
+                            def visit_Name(r, m):
+                                if isinstance(m.ctx, ast.Load) and m.id in bind:
+                                    return copy.deepcopy(bind[m.id])
+                                return m
+                        return R().visit(copy.deepcopy(f.body))
+            return n
+    return B().visit(e)
+
+
+_ITER_CONSUMERS = ("dict", "tuple", "list", "sorted", "set", "frozenset", "sum", "any", "all", "min", "max", "enumerate", "zip", "bytes", "bytearray", "reversed", "iter")
+_STRUCT_FUNCS = ("struct.pack", "struct.unpack", "struct.calcsize", "struct.Struct", "struct.unpack_from", "struct.pack_into", "struct.iter_unpack")
+
+
 class Canon:
     """canonical forms of expressions.  int_names: set of canonical texts (or predicate on the text) known to be
     integers; arithmetic is only re-associated / sorted where every operand is known to be an integer."""
@@ -41,6 +78,7 @@ class Canon:
         self.const_of = const_of      # callable(expr) -> python value or None, for module-level constants
         self.inline = inline          # callable(call node) -> FunctionDef of a single-expression helper, or None
         self._depth = 0
+        self.callee_of = None         # callable(call node) -> FunctionDef the call resolves to (for default arguments), or None
         self.extra_ints = set()       # local names inferred to hold integers (see infer_int_locals)
         if int_names is None:
             self.int_name = lambda t: False
@@ -52,6 +90,7 @@ class Canon:
     # ------------------------------------------------------------- expressions
     def expr(self, e):
         e = copy.deepcopy(e)
+        e = _beta(e)
         e = self._alpha(e, {}, [0])
         e = self._fold(e)
         return e
@@ -127,7 +166,9 @@ class Canon:
             a, b = self.is_int(e.left), self.is_int(e.right)
             if a and b:
                 return not isinstance(e.op, ast.Div)
-            if isinstance(e.op, (ast.BitAnd, ast.BitOr, ast.BitXor, ast.Add, ast.Sub)):
+            if isinstance(e.op, (ast.Add, ast.Sub)):
+                return a or b           # only a number can be added to a number
+            if isinstance(e.op, (ast.BitAnd, ast.BitOr, ast.BitXor)):
                 return (isinstance(e.left, ast.Constant) and a) or (isinstance(e.right, ast.Constant) and b)
             if isinstance(e.op, ast.Mod):
                 return isinstance(e.right, ast.Constant) and b and not isinstance(e.left, (ast.Constant, ast.JoinedStr))
@@ -144,7 +185,8 @@ class Canon:
         if isinstance(e, ast.Constant) and isinstance(e.value, int) and not isinstance(e.value, bool):
             return {}, e.value
         if isinstance(e, ast.BinOp) and isinstance(e.op, (ast.Add, ast.Sub)) and (force or self.is_int(e)):
-            l, r = self._lin(e.left, force), self._lin(e.right, force)
+            # x + 1 being a number makes x one: the operands of numeric addition are numbers themselves
+            l, r = self._lin(e.left, True), self._lin(e.right, True)
             if l is None or r is None:
                 return None
             sgn = 1 if isinstance(e.op, ast.Add) else -1
@@ -239,6 +281,51 @@ class Canon:
             if len(e.args) == 2 and isinstance(e.args[0], ast.Constant) and e.args[0].value == 0:
                 e.args = e.args[1:]
             return e
+        if isinstance(e, ast.Call):
+            ft = norm(e.func)
+            # an iterable handed to something that only iterates it: the list() around it is no part of the value
+            if (ft in _ITER_CONSUMERS or (isinstance(e.func, ast.Attribute) and e.func.attr == "join")) and not e.keywords and ft != "reversed" \
+                    and (len(e.args) == 1 or ft == "zip"):
+                for i_, a_ in enumerate(e.args):
+                    if isinstance(a_, ast.Call) and isinstance(a_.func, ast.Name) and a_.func.id in ("list", "tuple") and len(a_.args) == 1 and not a_.keywords:
+                        e.args[i_] = a_.args[0]
+            if ft == "list" and len(e.args) == 1 and not e.keywords and isinstance(e.args[0], (ast.ListComp, ast.List)):
+                return e.args[0]
+            if ft in _STRUCT_FUNCS and e.args and isinstance(e.args[0], ast.Constant) and isinstance(e.args[0].value, (str, bytes)) and e.args[0].value[:1] in ("!", b"!"):
+                v_ = e.args[0].value
+                e.args[0] = ast.Constant((">" if isinstance(v_, str) else b">") + v_[1:])      # network order is big-endian, standard sizes
+            if (ft == "Decimal" or ft.endswith(".Decimal")) and not e.args and not e.keywords:
+                e.args = [ast.Constant(0)]
+            if self.callee_of is not None and e.keywords:
+                fn_ = self.callee_of(e)
+                if fn_ is not None:
+                    a_ = fn_.args
+                    pos = a_.posonlyargs + a_.args
+                    dflt = dict(zip([x.arg for x in pos[len(pos) - len(a_.defaults):]], a_.defaults)) if a_.defaults else {}
+                    dflt.update({x.arg: d for x, d in zip(a_.kwonlyargs, a_.kw_defaults) if d is not None})
+                    keep_kw = []
+                    for k_ in e.keywords:
+                        d_ = dflt.get(k_.arg) if k_.arg else None
+                        if d_ is not None and isinstance(d_, ast.Constant) and isinstance(k_.value, ast.Constant) and d_.value == k_.value.value and type(d_.value) is type(k_.value.value):
+                            continue        # the value the callee would use anyway
+                        keep_kw.append(k_)
+                    e.keywords = keep_kw
+        if isinstance(e, ast.Subscript) and isinstance(e.value, ast.Subscript) and isinstance(e.value.slice, ast.Slice) and e.value.slice.step is None \
+                and isinstance(e.slice, ast.Constant) and type(e.slice.value) is int and e.slice.value >= 0:
+            lo, hi = e.value.slice.lower, e.value.slice.upper
+            lo_v = 0 if lo is None else (lo.value if isinstance(lo, ast.Constant) and type(lo.value) is int else None)
+            hi_v = None if hi is None else (hi.value if isinstance(hi, ast.Constant) and type(hi.value) is int else "?")
+            if lo_v is not None and lo_v >= 0 and hi_v != "?" and (hi_v is None or (hi_v >= 0 and lo_v + e.slice.value < hi_v)):
+                # X[a:b][i] with a + i < b: the element X[a + i] (or the same IndexError)
+                return ast.Subscript(e.value.value, ast.Constant(lo_v + e.slice.value), ast.Load())
+        if isinstance(e, ast.BinOp) and isinstance(e.op, ast.BitOr):
+            for s_, k_ in ((e.left, e.right), (e.right, e.left)):
+                if isinstance(k_, ast.Constant) and type(k_.value) is int and k_.value >= 0 and not isinstance(s_, ast.Constant):
+                    lo_, hi_ = _term_range(norm(s_))
+                    if k_.value == 0 and (self.is_int(s_) or lo_ is not None):
+                        return s_
+                    if lo_ == 0 and hi_ is not None and k_.value & ((1 << hi_.bit_length()) - 1) == 0:
+                        return self._fold(ast.BinOp(s_, ast.Add(), k_))       # no bit in common: or is addition
         if isinstance(e, ast.Call) and self.inline is not None and self._depth < 3:
             fn = self.inline(e)
             if fn is not None:
@@ -1450,6 +1537,27 @@ def make_inliner(ctx, fi):
     return resolve
 
 
+def make_callee_resolver(ctx, fi):
+    """call -> FunctionDef it resolves to: plain names (module / imports), self.m and cls.m through fi's class and bases"""
+    locals_ = set(fi.params()) | set(df.assignments(fi.node))
+
+    def resolve(call):
+        f = call.func
+        try:
+            if isinstance(f, ast.Name) and f.id not in locals_:
+                r = ctx.p.resolve_global(fi.module, f.id)
+                node = getattr(r, "node", None)
+                return node if isinstance(node, ast.FunctionDef) else None
+            if isinstance(f, ast.Attribute) and isinstance(f.value, ast.Name) and f.value.id in ("self", "cls") and fi.cls is not None:
+                m = ctx.p.lookup_method(fi.cls, f.attr)
+                node = getattr(m, "node", None)
+                return node if isinstance(node, ast.FunctionDef) else None
+        except Exception:
+            return None
+        return None
+    return resolve
+
+
 def _mutation_sites(func_node):
     sites = {}
     for n in ast.walk(func_node):
@@ -1820,6 +1928,36 @@ def _formula_names(f):
     return out
 
 
+def _canon_test_ast(t):
+    """a loop test as the truth value it is used for: `x`, `len(x) > 0`, `len(x) != 0`, `len(x) >= 1` -> truthy(x)"""
+    tr = lambda x: ast.Call(ast.Name("truthy", ast.Load()), [x], [])
+    if isinstance(t, ast.Constant):
+        return ast.Constant(bool(t.value))
+    if isinstance(t, ast.BoolOp):
+        return ast.BoolOp(t.op, [_canon_test_ast(v) for v in t.values])
+    if isinstance(t, ast.UnaryOp) and isinstance(t.op, ast.Not):
+        return ast.UnaryOp(ast.Not(), _canon_test_ast(t.operand))
+    if isinstance(t, ast.Compare) and len(t.ops) == 1:
+        l_, o, r_ = t.left, t.ops[0], t.comparators[0]
+        la, ra = _len_arg(l_), _len_arg(r_)
+        if la is not None and isinstance(r_, ast.Constant) and type(r_.value) is int:
+            k = r_.value
+            if (isinstance(o, (ast.Gt, ast.NotEq)) and k == 0) or (isinstance(o, ast.GtE) and k == 1):
+                return tr(l_.args[0])
+            if (isinstance(o, (ast.Eq, ast.LtE)) and k == 0) or (isinstance(o, ast.Lt) and k == 1):
+                return ast.UnaryOp(ast.Not(), tr(l_.args[0]))
+        if ra is not None and isinstance(l_, ast.Constant) and type(l_.value) is int:
+            k = l_.value
+            if (isinstance(o, (ast.Lt, ast.NotEq)) and k == 0) or (isinstance(o, ast.LtE) and k == 1):
+                return tr(r_.args[0])
+            if (isinstance(o, (ast.Eq, ast.GtE)) and k == 0) or (isinstance(o, ast.Gt) and k == 1):
+                return ast.UnaryOp(ast.Not(), tr(r_.args[0]))
+        return t
+    if isinstance(t, (ast.Name, ast.Attribute, ast.Subscript)):
+        return tr(t)
+    return t
+
+
 def summarize(func_node, canon, leaf=None, keep=()):
     params = {a.arg for a in func_node.args.args + func_node.args.posonlyargs + func_node.args.kwonlyargs}
     keep = set(keep) | (mutated_locals(func_node) - params)
@@ -1842,9 +1980,7 @@ def summarize(func_node, canon, leaf=None, keep=()):
                 t_, i_, _b = canon_loop_header(n.target, w.sub(n.iter))
                 raw.append(("loop-iter", [hdr, " for ", t_, " in ", i_], s.reach))
         else:
-            t_ = w.tests.get(id(n)) or n.test
-            if isinstance(t_, ast.Constant):
-                t_ = ast.Constant(bool(t_.value))
+            t_ = _canon_test_ast(w.tests.get(id(n)) or n.test)
             raw.append(("loop-iter", [hdr, " while ", t_], True))
         assigned = w._assigned(n.body)
         temps = (assigned - _observable_carried(w, n, func_node, assigned)) | (temps & set())
@@ -1929,6 +2065,11 @@ def summarize(func_node, canon, leaf=None, keep=()):
             else:
                 txt += _rename_text(p_, ren) if k == "effect" else p_
         items.append(Item(k, txt, _rename_formula(cond, ren, canon)))
+    a_ = getattr(func_node, "args", None)
+    if a_ is not None:
+        pos_ = a_.posonlyargs + a_.args
+        for x_, d_ in list(zip(pos_[len(pos_) - len(a_.defaults):], a_.defaults)) + [(x_, d_) for x_, d_ in zip(a_.kwonlyargs, a_.kw_defaults) if d_ is not None]:
+            items.append(Item("signature", "default %s = %s" % (x_.arg, norm(canon.expr(d_))), True))
     return Summary(items, w)
 
 
@@ -2037,9 +2178,132 @@ def _member(setv, w):
     return False
 
 
+_ATOM_SHAPES = {}
+
+
+def _atom_shape(a):
+    """('eq', term, K) | ('lt', term, K) | ('none', term) | ('truthy', term) | None for the text of an opaque atom"""
+    if not isinstance(a, str):
+        return None
+    if a in _ATOM_SHAPES:
+        return _ATOM_SHAPES[a]
+    r = None
+    try:
+        e = ast.parse(a, mode="eval").body
+    except Exception:
+        e = None
+    simple = lambda c: isinstance(c, ast.Constant) and isinstance(c.value, (int, str, bytes, bool, type(None))) \
+        or isinstance(c, ast.UnaryOp) and isinstance(c.op, ast.USub) and isinstance(c.operand, ast.Constant) and type(c.operand.value) is int
+    cval = lambda c: c.value if isinstance(c, ast.Constant) else -c.operand.value
+    if isinstance(e, ast.Compare) and len(e.ops) == 1:
+        l_, o, r_ = e.left, e.ops[0], e.comparators[0]
+        if isinstance(o, ast.Eq) and simple(l_) != simple(r_):
+            k, t = (l_, r_) if simple(l_) else (r_, l_)
+            r = ("eq", norm(t), cval(k))
+        elif isinstance(o, ast.Lt) and simple(r_) and not simple(l_) and type(cval(r_)) is int:
+            r = ("lt", norm(l_), cval(r_))
+        elif isinstance(o, ast.Is) and isinstance(r_, ast.Constant) and r_.value is None:
+            r = ("none", norm(l_))
+    elif isinstance(e, ast.Call) and isinstance(e.func, ast.Name) and e.func.id == "truthy" and len(e.args) == 1:
+        r = ("truthy", norm(e.args[0]))
+    _ATOM_SHAPES[a] = r
+    return r
+
+
+def _len_arg(e):
+    if isinstance(e, str):
+        try:
+            e = ast.parse(e, mode="eval").body
+        except Exception:
+            return None
+    if isinstance(e, ast.Call) and isinstance(e.func, ast.Name) and e.func.id == "len" and len(e.args) == 1 and not e.keywords:
+        return norm(e.args[0])
+    return None
+
+
+def _term_range(t):
+    """(lo, hi) bounds every value of the term text obeys: len(..) >= 0, x % m in [0, m)"""
+    try:
+        e = ast.parse(t, mode="eval").body
+    except Exception:
+        return None, None
+    if _len_arg(e) is not None:
+        return 0, None
+    if isinstance(e, ast.BinOp) and isinstance(e.op, ast.Mod) and isinstance(e.right, ast.Constant) and type(e.right.value) is int and e.right.value > 0:
+        return 0, e.right.value - 1
+    if isinstance(e, ast.BinOp) and isinstance(e.op, ast.BitAnd) and isinstance(e.right, ast.Constant) and type(e.right.value) is int and e.right.value >= 0:
+        return 0, e.right.value
+    return None, None
+
+
+def _theory(atoms):
+    """facts every assignment of these atoms obeys because of what their texts say: x == 2 excludes x == 3,
+    x < 3 gives x < 5, None is falsy, a length is not negative.  As formulas over the atoms."""
+    by = {}
+    for a in atoms:
+        sh = _atom_shape(a)
+        if sh is not None:
+            by.setdefault(sh[1], []).append((a, sh))
+    ax = []
+    A = lambda a: ("op", a)
+    imp = lambda x, y: f_or(f_not(x), y)
+    for t, lst in by.items():
+        lo, hi = _term_range(t)
+        for a, sh in lst:
+            if sh[0] == "eq" and type(sh[2]) is int and not isinstance(sh[2], bool) and ((lo is not None and sh[2] < lo) or (hi is not None and sh[2] > hi)):
+                ax.append(f_not(A(a)))
+            if sh[0] == "lt":
+                if lo is not None and sh[2] <= lo:
+                    ax.append(f_not(A(a)))
+                if hi is not None and sh[2] > hi:
+                    ax.append(A(a))
+        for i in range(len(lst)):
+            for j in range(i + 1, len(lst)):
+                (a, x), (b, y) = lst[i], lst[j]
+                if x[0] > y[0]:
+                    (a, x), (b, y) = (b, y), (a, x)
+                kinds = (x[0], y[0])
+                try:
+                    if kinds == ("eq", "eq"):
+                        if x[2] != y[2] or type(x[2]) is not type(y[2]) and not (isinstance(x[2], int) and isinstance(y[2], int)):
+                            ax.append(f_not(f_and(A(a), A(b))))
+                    elif kinds == ("lt", "lt"):
+                        ax.append(imp(A(a), A(b)) if x[2] <= y[2] else imp(A(b), A(a)))
+                    elif kinds == ("eq", "lt"):
+                        if type(x[2]) is int or isinstance(x[2], bool):
+                            ax.append(imp(A(a), A(b)) if x[2] < y[2] else imp(A(a), f_not(A(b))))
+                    elif kinds == ("none", "truthy"):
+                        ax.append(f_not(f_and(A(a), A(b))))
+                    elif kinds == ("eq", "none"):
+                        if x[2] is not None:
+                            ax.append(f_not(f_and(A(a), A(b))))
+                    elif kinds == ("eq", "truthy"):
+                        ax.append(imp(A(a), A(b)) if x[2] else imp(A(a), f_not(A(b))))
+                except TypeError:
+                    pass
+    # len(x) against truthy(x)
+    for t, lst in by.items():
+        inner = _len_arg(t)
+        if inner is not None:
+            for b, y in by.get(inner, []):
+                if y[0] != "truthy":
+                    continue
+                for a, x in lst:
+                    if x[0] == "eq" and type(x[2]) is int:
+                        ax.append(imp(A(a), f_not(A(b))) if x[2] == 0 else imp(A(a), A(b)))
+                        if x[2] == 0:
+                            ax.append(imp(f_not(A(a)), A(b)))
+                    if x[0] == "lt":
+                        if x[2] <= 1:
+                            ax.append(imp(A(a), f_not(A(b))))
+                        if x[2] == 1:
+                            ax.append(imp(f_not(A(a)), A(b)))
+    return ax
+
+
 def _bitparallel(fs):
     """truth tables of several formulas over their joint opaque atoms x the world of subject values, as big
-    integers (one bit per (assignment, subject value))"""
+    integers (one bit per (assignment, subject value)), restricted to the assignments the atoms' own texts allow"""
     atoms = []
 
     def collect(f):
@@ -2115,7 +2379,10 @@ def _bitparallel(fs):
         for g in f[1]:
             r |= ev(g)
         return r
-    return [ev(f) for f in fs], full
+    T = full
+    for axiom in _theory(atoms):
+        T &= ev(axiom)
+    return [ev(f) & T for f in fs], T
 
 
 def _equiv(f1, f2):
@@ -2141,6 +2408,9 @@ def _sort_formula(f):
         return ("not", _sort_formula(f[1]))
     parts = sorted((_sort_formula(g) for g in f[1]), key=repr)
     return (f[0], tuple(parts))
+
+
+POLICY = os.environ.get("VERIF_DIFF_POLICY", "medium")
 
 
 def compare_summaries(code, ref, near=0.7):
@@ -2187,7 +2457,54 @@ def compare_summaries(code, ref, near=0.7):
             details.append(("differs", k[0], k[1], bk[1], best))
     if not details:
         return "same", []
-    return ("unrecognised" if far else "differs"), details
+    if far:
+        return "unrecognised", details
+    if POLICY == "lenient":
+        return "differs", details
+    # a verdict of its own needs a difference that cannot be a reorganisation: the same skeleton with a constant, an
+    # operator or a name exchanged; the same tests combined to a different condition; tests added to or dropped from
+    # a condition.  Every component paired but the differences larger than that: 'near' (a witness, not a verdict).
+    for d in details:
+        if d[0] == "condition":
+            k = (d[1], d[2].rsplit(" when ", 1)[0])
+            fa, fb = ga.get(k), gb.get(k)
+            if fa is None or fb is None or not _condition_mutation(fa, fb):
+                return "near", details
+        elif d[0] == "differs":
+            if not _mutation_like(d[2], d[3]):
+                return "near", details
+    return "differs", details
+
+
+def _mutation_like(ref_text, code_text, limit=3):
+    """the two texts have the same bracket skeleton and differ in at most `limit` leaf tokens"""
+    import difflib
+    ta, tb = _tokens(ref_text), _tokens(code_text)
+    changed = 0
+    for tag, i1, i2, j1, j2 in difflib.SequenceMatcher(None, ta, tb, autojunk=False).get_opcodes():
+        if tag == "equal":
+            continue
+        da, db = ta[i1:i2], tb[j1:j2]
+        if any(t in ("(", ")", "[", "]", "{", "}", ",", ":", "for", "in", "if", "else", "lambda") for t in da + db):
+            return False
+        changed += max(len(da), len(db))
+    return 0 < changed <= limit
+
+
+def _condition_mutation(f_code, f_ref):
+    """the two conditions test the same things (or the same but for one constant / operator) and still differ"""
+    atoms = lambda f: set(a for a in (gi.f_opaques(f) if f not in (True, False) else []) if isinstance(a, str))
+    a, b = atoms(f_code), atoms(f_ref)
+    if "'set'" in repr(f_code) or "'set'" in repr(f_ref):
+        return True             # value-set atoms are decided exactly
+    if a == b:
+        return True
+    only_a, only_b = sorted(a - b), sorted(b - a)
+    if len(only_a) == len(only_b) == 1 and _mutation_like(only_b[0], only_a[0], 2):
+        return True
+    if POLICY != "strict" and (not only_a or not only_b):
+        return True             # tests added (a case now skipped or refused) or dropped (a case no longer checked)
+    return False
 
 
 def reference_status(ctx, fi, ref_source, ref_names, int_names=None, leaf=None, keep=(), inline=True):
@@ -2219,6 +2536,7 @@ def reference_status(ctx, fi, ref_source, ref_names, int_names=None, leaf=None, 
         return dotted_consts.get(norm(e))
     canon_ref = Canon(ref_const_of if (ref_consts or dotted_consts) else None, int_names,
                       (lambda c: ref_funcs.get(c.func.id) if isinstance(c.func, ast.Name) and c.func.id != "_" else None) if inline else None)
+    canon_code.callee_of = canon_ref.callee_of = make_callee_resolver(ctx, fi)
     s_code = summarize(fi.node, canon_code, leaf, keep)
     best = None
     for ref_name in ref_names:
@@ -2230,7 +2548,7 @@ def reference_status(ctx, fi, ref_source, ref_names, int_names=None, leaf=None, 
             raise AnalysisError("reference %s missing" % ref_name)
         s_ref = summarize(ref_node, canon_ref, leaf, keep)
         status, details = compare_summaries(s_code, s_ref)
-        rank = {"same": 0, "differs": 1, "unrecognised": 2}[status]
+        rank = {"same": 0, "differs": 1, "near": 2, "unrecognised": 3}[status]
         if best is None or (rank, len(details)) < best[0]:
             best = ((rank, len(details)), status, details, s_ref, ref_name)
     _, status, details, s_ref, ref_name = best
